@@ -48,7 +48,10 @@ def gen_rule(rnd, i, dup):
     cond = rnd.choice(CONDS).format(names[0], names[-1])
     conds = cond if rnd.random() < 0.8 else [cond, rnd.choice(CONDS).format(names[-1], names[0])]
     d = {"title": f"Title {rnd.choice(dup['titles'])}", "logsource": {"category": "process_creation", "product": "windows"},
-         "detection": {**dets, "condition": conds}, "level": "medium", "status": "test", "tags": ["attack.t1059"]}
+         "detection": {**dets, "condition": conds}, "level": "medium", "status": "test", "tags": ["attack.t1059", "attack.execution", "attack.defense-evasion"],
+         # list-valued attributes in a non-sorted order, some with duplicates: a validator must not reorder or deduplicate them
+         "references": rnd.choice([["https://z.example/b", "https://a.example/a"], ["https://m.example", "https://b.example", "https://m.example"]]),
+         "falsepositives": ["unlikely", "admins"], "fields": ["f2", "f0", "f1"], "author": "x"}
     if rnd.random() < 0.85:
         d["id"] = str(uuid.UUID(int=0x3000 + rnd.choice(dup["ids"])))
     return d
